@@ -127,6 +127,21 @@ class Ctx:
             o['rule'] = '%s(%s)' % (label, o['rule'])
         return res
 
+    def borrow_soft(self, label, fn, *args, only=None, **kw):
+        """borrow(), but a shape the other property's rule does not read
+        (AnalysisError) only costs this cross-listing: it is recorded as an
+        assumption and the borrowing check goes on."""
+        from .model import AnalysisError
+        nf, no = len(self.findings), len(self.obligations)
+        try:
+            return self.borrow(label, fn, *args, only=only, **kw)
+        except AnalysisError as e:
+            del self.findings[nf:]
+            del self.obligations[no:]
+            self.assume('%s(%s) not decided here: %s' % (
+                label, '/'.join(only or ['*']), str(e)[:160]))
+            return None
+
     def count(self, n, distinct_keys=()):
         """Count bulk evaluations (table rows, sentences)."""
         self.evaluations += n
